@@ -124,8 +124,14 @@ ApplyParse(m, e, obj, step) ==
       f2 == IF f1 = Ok /\ obj.implKnown /\ impl # phi0 THEN F("parse.ast", step, phi0, impl) ELSE Ok IN
   R(Install([m EXCEPT !.phase = "parsed", !.phi = phi0, !.inst = phi0]), f1 \o f2, 0)
 
+\* next / s_next (like prev, rise, fall) have no dense-time meaning: pastify() would translate them away, so a specification
+\* that contains them must be rejected by pastify() itself or by the first update() - it must never yield a value (C17)
+DenseNoMeaning(p) == HasOp(p, {"next", "snext", "prev", "sprev", "rise", "fall"})
 ApplyPastify(m, e, step) ==
-  IF Pastifiable(m.phi) THEN R(Install([m EXCEPT !.phase = "pastified", !.inst = Pastify(m.phi, {})]),
+  IF Pastifiable(m.phi) /\ DenseNoMeaning(m.phi) THEN
+    (IF e.exc = "RTAMT" THEN R([m EXCEPT !.dead = TRUE], Ok, 0)
+     ELSE R([m EXCEPT !.phase = "pastified", !.inst = [op |-> "next", l |-> m.phi]], ExcClass(TRUE, e, "pastify.exc", step), 0))
+  ELSE IF Pastifiable(m.phi) THEN R(Install([m EXCEPT !.phase = "pastified", !.inst = Pastify(m.phi, {})]),
                                ExcClass(TRUE, e, "pastify.exc", step), 0)
   ELSE R(m, ExcClass(FALSE, e, "pastify.exc", step), 0)
 
